@@ -191,6 +191,22 @@ void rconv(sink& out, std::vector<Src> const& ss)
     }
 }
 
+// the same conversion through the wrapper: rounding_integer<Dst, Tag>{x}
+template<class Tag, class Src, class Dst>
+void rconv_wrapper(sink& out, std::vector<Src> const& ss)
+{
+    if constexpr (std::is_integral_v<Dst>) {
+        using W = cnl::rounding_integer<Dst, Tag>;
+        int id = add_inst(out, ev("Inst").str("kind", "RConv").str("op", "conv").str("tag", rtag<Tag>()).str("api", "wrapper")
+                                       .raw("lt", desc<Src>()).raw("rt", desc<Dst>()).raw("res_t", desc<Dst>()));
+        for (auto const& a : ss) {
+            Dst res{};
+            auto o = guarded([&] { res = cnl::_impl::to_rep(W{a}); });
+            out.put(ev("RConv").num("i", id).raw("l", enc_float(a)).raw("res", o == "ok" ? raw(res) : "[0]").str("out", o).s);
+        }
+    }
+}
+
 // floats around every tie k + 0.5 (and its two neighbours), at the unit 2^E of the destination
 template<class F>
 std::vector<F> tie_floats(int E, long long maxk)
@@ -227,6 +243,8 @@ void float_to(sink& out, int E)
     rconv<Tag, float, Dst>(out, tie_floats<float>(E, maxk));
     rconv<Tag, double, Dst>(out, tie_floats<double>(E, maxk));
     rconv<Tag, long double, Dst>(out, tie_floats<long double>(E, maxk));
+    rconv_wrapper<Tag, float, Dst>(out, tie_floats<float>(E, maxk));
+    rconv_wrapper<Tag, double, Dst>(out, tie_floats<double>(E, maxk));
 }
 
 template<class Rep, int E, int R = 2>
